@@ -6,6 +6,7 @@ import (
 	"encoding/json"
 	"errors"
 	"fmt"
+	"github.com/elastic/go-structform/visitors"
 	"io"
 	"math"
 	"reflect"
@@ -401,7 +402,22 @@ func runEncode(c *Case, tr *Trace, parse bool) {
 	}
 	if parse && !failed {
 		rec := &RefRecorder{}
-		err := api.parse(exact(sk.all), rec)
+		var err error
+		if prev, ok := c.Sub["reuse"].([]interface{}); ok {
+			// sub.reuse: the bytes are read by a parser OBJECT that has read other complete documents before
+			// (Parse per document; whatever the last token of a document leaves behind meets the next one)
+			p := api.newParser(rec)
+			for _, d := range prev {
+				b, _ := json.Marshal(d)
+				var ints []int
+				json.Unmarshal(b, &ints)
+				p.Parse(exact(intsToBytes(ints)))
+			}
+			rec.Events, rec.held = nil, nil
+			err = p.Parse(exact(sk.all))
+		} else {
+			err = api.parse(exact(sk.all), rec)
+		}
 		cl, msg := errClass(err)
 		ev := rec.Events
 		if ev == nil {
@@ -546,8 +562,7 @@ func runExtCmp(c *Case, tr *Trace) {
 		msg   string
 		vals  []VD
 	}
-	run := func(stream []Event) result {
-		var r result
+	run := func(stream []Event) (r result) {
 		var v structform.ExtVisitor
 		var dep func() []int
 		var sk *sink
@@ -576,6 +591,30 @@ func runExtCmp(c *Case, tr *Trace) {
 			enc := formats[consumer].newVisitor(sk, c.Opts)
 			v = enc
 			dep = func() []int { return depthsOf(enc) }
+		}
+		if via, _ := c.Sub["via"].(string); via == "expectobj" && un == nil {
+			// the consumer sits behind visitors.ExpectObjVisitor (the wrapper gotype puts around inlined user
+			// folders): a transducer must pass on the by-reference and the extended calls as what they mean
+			// (it passes on the MEMBERS of the one object it is handed: the harness supplies the enclosing object)
+			inner := v
+			if err := inner.OnObjectStart(-1, structform.AnyType); err != nil {
+				r.errAt, r.msg = 1, err.Error()
+				return r
+			}
+			defer func() {
+				if r.errAt == 0 {
+					if err := inner.OnObjectFinished(); err != nil {
+						r.errAt, r.msg = len(stream)+1, err.Error()
+					}
+					if sk != nil {
+						r.out = sk.all
+					}
+					if rec != nil {
+						r.ev = rec.Events
+					}
+				}
+			}()
+			v = structform.EnsureExtVisitor(visitors.NewExpectObjVisitor(v))
 		}
 		var top topLevelDone
 		for i := range stream {
